@@ -210,6 +210,27 @@ func isCounterStep(b *ssa.BinOp) bool {
 	}
 	a, ok := ld.X.(*ssa.Alloc)
 	if !ok {
+		// *p + c where p is a pointer parameter (a counter handed down by the caller, e.g. *cnt++)
+		if inner, ok := ld.X.(*ssa.UnOp); ok && inner.Op == token.MUL {
+			if pa, ok := inner.X.(*ssa.Alloc); ok {
+				refs := pa.Referrers()
+				if refs != nil {
+					nst := 0
+					isParam := false
+					for _, r := range *refs {
+						if st, ok := r.(*ssa.Store); ok && st.Addr == pa {
+							nst++
+							_, isParam = st.Val.(*ssa.Parameter)
+						}
+					}
+					if nst == 1 && isParam {
+						if k, ok := b.Y.(*ssa.Const); ok && k.Value != nil && (k.Int64() == 1 || k.Int64() == -1) {
+							return true
+						}
+					}
+				}
+			}
+		}
 		return false
 	}
 	refs := a.Referrers()
